@@ -420,7 +420,25 @@ pub fn direction_rule_violated(cat: Cat, dir: &ast::Direction) -> bool {
     }
 }
 
+/// A method that spells `= <digits>` but has no code in the tree (the digits do not fit u32)
+pub fn has_unparsable_code(m: &ast::Method) -> bool {
+    m.transact_code.is_none() && !is_loose(&m.transact_code_range) && m.transact_code_range.start.offset < m.transact_code_range.end.offset
+}
+
+pub fn tree_has_unparsable_code(t: &ast::Aidl) -> bool {
+    match &t.item {
+        ast::Item::Interface(i) => i.elements.iter().any(|e| matches!(e, ast::InterfaceElement::Method(m) if has_unparsable_code(m))),
+        _ => false,
+    }
+}
+
 pub fn validate_ref(parse_tree: &ast::Aidl, keys: &Keys) -> Result<RefOut, String> {
+    validate_ref_opt(parse_tree, keys, false)
+}
+
+/// `unparsable_code_counts_as_code`: whether a method with an overflowing transact code takes
+/// part in the "mixed" bookkeeping as a method WITH a code (the statement does not say)
+pub fn validate_ref_opt(parse_tree: &ast::Aidl, keys: &Keys, unparsable_code_counts_as_code: bool) -> Result<RefOut, String> {
     let mut tree = parse_tree.clone();
     let imports: Vec<String> = tree.imports.iter().map(import_qname).collect();
     let decls: Vec<String> = tree.declared_parcelables.iter().map(import_qname).collect();
@@ -614,7 +632,7 @@ pub fn validate_ref(parse_tree: &ast::Aidl, keys: &Keys) -> Result<RefOut, Strin
                 continue;
             }
             seen_names.insert(m.name.clone(), m.symbol_range.clone());
-            let has = m.transact_code.is_some();
+            let has = m.transact_code.is_some() || (unparsable_code_counts_as_code && has_unparsable_code(m));
             let differs = if has {
                 first_without.is_some()
             } else {
